@@ -259,6 +259,14 @@ Section Maxi.
 
   Definition ss_threshold (m : matrix) (t : T) : list nat := map (offset m) (threshold_generic m t).
 
+  (* the same offsets as binary numbers (what the driver evaluates: offsets reach rows * C,
+     too large for unary naturals on matrices with thousands of rows) *)
+  Definition offsetN (rows : N) (rc : coord) : N := (N.of_nat (snd rc) * rows + N.of_nat (fst rc))%N.
+  Definition ss_argmaxN (am : res (option coord)) (m : matrix) : res (option N) :=
+    o <- am ;; Ok (option_map (offsetN (N.of_nat (length m))) o).
+  Definition ss_thresholdN (m : matrix) (t : T) : list N :=
+    map (offsetN (N.of_nat (length m))) (threshold_generic m t).
+
   (* StripedScores::unstripe / iter: positions 0 .. min(max_index, rows*C) in
      column-major order *)
   Definition column (c : nat) (m : matrix) : list (option T) := map (fun row => nth_error row c) m.
@@ -302,6 +310,14 @@ Section Maxi.
     | x :: rest => (if le t x then [i] else []) ++ lin_thr t (S i) rest
     end.
   Definition lin_threshold (t : T) (l : list T) : list nat := lin_thr t 0 l.
+
+  (* the same positions as binary numbers (evaluated by the driver) *)
+  Fixpoint lin_thrN (t : T) (i : N) (l : list T) : list N :=
+    match l with
+    | [] => []
+    | x :: rest => (if le t x then [i] else []) ++ lin_thrN t (N.succ i) rest
+    end.
+  Definition lin_thresholdN (t : T) (l : list T) : list N := lin_thrN t 0%N l.
 
   (* ---------- executable property checker (on the implementation's answers) ---------- *)
 
@@ -349,6 +365,22 @@ Section Maxi.
   (* every cell whose column-major index is in V .. n-1 satisfies [is_ninf] *)
   Definition check_padding (is_ninf : T -> bool) (m : matrix) (V n : nat) : bool :=
     forallb (fun i => match index_usize m i with Ok x => is_ninf x | _ => false end) (seq V (n - V)).
+
+  (* end-to-end padding check (on the implementation's cells and answers): every cell with
+     column-major index in V .. n-1 is -inf, and when some valid cell (index < V) satisfies
+     [is_fin] the reported maximum is the maximum of the valid cells and the reported
+     arg-maximum offset is a valid position *)
+  Definition cell_at (m : matrix) (i : nat) : option T :=
+    match index_usize m i with Ok x => Some x | _ => None end.
+  Definition valid_cells (m : matrix) (V : nat) : list T := somes (map (cell_at m) (seq 0 V)).
+
+  Definition check_padding_max (is_ninf is_fin : T -> bool) (m : matrix) (V n : nat)
+             (omax : option T) (oam : option nat) : bool :=
+    check_padding is_ninf m V n &&
+    (if existsb is_fin (valid_cells m V)
+     then check_max [valid_cells m V] omax &&
+          match oam with Some off => Nat.ltb off V | None => false end
+     else true).
 
 End Maxi.
 
@@ -475,3 +507,78 @@ Definition f32_okv (x : IEEE.F32.t) : bool :=
   | _ => true
   end.
 Definition f32_is_ninf (x : IEEE.F32.t) : bool := IEEE.F32.is_neg_inf x.
+
+(* ---------- source tables (translate/maxi_tables.py -> GenMaxi.v) ---------- *)
+
+(* the kernels an arm of the dispatcher / a method of a pipeline can be wired to *)
+Inductive kernel_id :=
+  | KGenericArgmax | KGenericMax          (* <Generic as Maximum>::{argmax,max} *)
+  | KDefaultArgmax | KDefaultMax          (* method not overridden: default impl of the trait *)
+  | KArgmaxSse2 | KArgmaxF32Avx2 | KMaxF32Avx2 | KArgmaxU8Avx2 | KMaxU8Avx2.
+
+Section RunKernel.
+  Context {T : Type}.
+  Variable le : T -> T -> bool.
+  Variable lt : T -> T -> bool.
+  Variable vmax : T -> T -> T.
+  Variable smax : T -> T -> T.
+  Variable ninf : T.
+
+  (* 99: a kernel of another element type / operation (cannot be wired: it would not type-check) *)
+  Definition run_argmax_f32 (k : kernel_id) (max_index : N) (m : list (list T)) : res (option (nat * nat)) :=
+    match k with
+    | KGenericArgmax | KDefaultArgmax => argmax_generic le m
+    | KArgmaxSse2 => argmax_sse2 le ninf 32 max_index m
+    | KArgmaxF32Avx2 => argmax_f32_avx2 le lt max_index m
+    | _ => Panic 99
+    end.
+
+  (* [own]: the arg-maximum of the same pipeline (for the default max on top of it) *)
+  Definition run_max_f32 (k : kernel_id) (own : res (option (nat * nat))) (m : list (list T)) : res (option T) :=
+    match k with
+    | KGenericMax => max_generic le m
+    | KDefaultMax => max_of_argmax own m
+    | KMaxF32Avx2 => max_f32_avx2 vmax smax m
+    | _ => Panic 99
+    end.
+End RunKernel.
+
+Definition run_argmax_u8 (k : kernel_id) (m : zmatrix) : res (option (nat * nat)) :=
+  match k with
+  | KGenericArgmax | KDefaultArgmax => argmax_generic Z.leb m
+  | KArgmaxU8Avx2 => argmax_u8_avx2 m
+  | _ => Panic 99
+  end.
+
+Definition run_max_u8 (k : kernel_id) (own : res (option (nat * nat))) (m : zmatrix) : res (option Z) :=
+  match k with
+  | KGenericMax => max_generic Z.leb m
+  | KDefaultMax => max_of_argmax own m
+  | KMaxU8Avx2 => max_u8_avx2 m
+  | _ => Panic 99
+  end.
+
+(* _mm256_permute2x128_si256(a, b, imm) on vectors of sixteen 16-bit lanes, any immediate:
+   each 128-bit half of the result is selected by a nibble (bits 1:0 pick a.lo / a.hi / b.lo /
+   b.hi, bit 3 zeroes) *)
+Definition sel128 {A} (z : A) (a b : list A) (s : Z) : list A :=
+  if Z.testbit s 3 then repeat z 8 else
+  match Z.land s 3 with
+  | 0%Z => firstn 8 a
+  | 1%Z => skipn 8 a
+  | 2%Z => firstn 8 b
+  | _ => skipn 8 b
+  end.
+Definition permute2x128 {A} (z : A) (a b : list A) (imm : Z) : list A :=
+  sel128 z a b (Z.land imm 15) ++ sel128 z a b (Z.land (Z.shiftr imm 4) 15).
+
+(* _mm256_storeu_si256(x[off..].as_mut_ptr(), v) *)
+Definition storeu {A} (x : list A) (off : nat) (v : list A) : list A :=
+  firstn off x ++ v ++ skipn (off + length v) x.
+
+(* the column reconstruction of argmax_u8_avx2 from the (a, b, imm, offset) list of the source *)
+Definition reconstruct_u8 (q : list (nat * nat * Z * nat)) (p1 p2 : list nat) : list nat :=
+  fold_left (fun x e => let '(a, b, imm, off) := e in
+                        let reg k := if Nat.eqb k 1 then p1 else p2 in
+                        storeu x off (permute2x128 O (reg a) (reg b) imm))
+            q (repeat O 32).
